@@ -35,6 +35,7 @@ for rel, path in targets:
             muts.append((rel, path, b0 + m.start(), b0 + m.end(), rep, line.strip()[:100]))
 random.Random(7).shuffle(muts)
 muts = muts[:maxn]
+KNOWN = chk.load_known()
 print(len(muts), "mutants")
 
 def run(i):
@@ -56,14 +57,17 @@ def run(i):
     else:
         for fl in r["failures"]:
             for prop in set(fl.get("fn_tags", [])) | set(fl.get("tags", [])):
+                if chk.known_match(prop, fl, KNOWN):
+                    continue
                 if chk.violation_for(prop, fl) == "violation":
                     verdict, why = "caught", fl["obligation"]
-        if verdict == "survived" and (r["undecided"] or r["failures"]):
+        fails = [fl for fl in r["failures"] if not any(chk.known_match(p_, fl, KNOWN) for p_ in set(fl.get("fn_tags", [])) | set(fl.get("tags", [])))]
+        if verdict == "survived" and (r["undecided"] or fails):
             msg = " ".join((r["undecided"] or [{}])[0].get("messages", []))
             if "no longer compiles" in msg:
                 verdict, why = "invalid", "mutant does not compile"
             else:
-                verdict, why = "undecided", (r["undecided"] or [{}])[0].get("reason", "") or r["failures"][0]["obligation"]
+                verdict, why = "undecided", (r["undecided"] or [{}])[0].get("reason", "") or fails[0]["obligation"]
     shutil.rmtree(sd, ignore_errors=True)
     return i, verdict, why
 
